@@ -1,0 +1,125 @@
+//! Instrumented replacement of `std::sync::Mutex` for the instance RNG, used
+//! by the external verification harness to observe and to force lock-section
+//! schedules. Only compiled with `--cfg cosmian_cover_crypt_verif`.
+//!
+//! Without an installed observer it behaves exactly like the standard mutex
+//! (apart from reporting a re-entrant acquisition instead of dead-locking).
+
+use std::{
+    cell::Cell,
+    ops::{Deref, DerefMut},
+    sync::{
+        atomic::{AtomicU64, Ordering},
+        Arc, RwLock,
+    },
+};
+
+/// Events are reported to the observer with the label of the calling thread.
+pub trait LockObserver: Send + Sync {
+    /// Called before trying to take the lock; may block to force a schedule.
+    fn before_lock(&self, thread: u64);
+    /// Called while holding the lock, right after it was acquired. `seq` is a
+    /// per-mutex sequence number incremented under the lock.
+    fn acquired(&self, thread: u64, seq: u64);
+    /// Called while still holding the lock, right before it is released.
+    fn releasing(&self, thread: u64, seq: u64);
+    /// Called when a thread tries to take a lock it already holds.
+    fn reentrant(&self, thread: u64);
+}
+
+static OBSERVER: RwLock<Option<Arc<dyn LockObserver>>> = RwLock::new(None);
+
+thread_local! {
+    static LABEL: Cell<u64> = const { Cell::new(0) };
+}
+
+/// Installs (or removes) the global lock observer.
+pub fn set_observer(observer: Option<Arc<dyn LockObserver>>) {
+    *OBSERVER.write().expect("observer lock") = observer;
+}
+
+/// Sets the label under which the current thread is reported.
+pub fn set_thread_label(label: u64) {
+    LABEL.with(|l| l.set(label));
+}
+
+fn label() -> u64 {
+    LABEL.with(Cell::get)
+}
+
+fn observer() -> Option<Arc<dyn LockObserver>> {
+    OBSERVER.read().expect("observer lock").clone()
+}
+
+#[derive(Debug)]
+pub struct Mutex<T> {
+    inner: std::sync::Mutex<T>,
+    // Label + 1 of the owning thread, 0 when free.
+    owner: AtomicU64,
+    seq: AtomicU64,
+}
+
+pub struct MutexGuard<'a, T> {
+    guard: Option<std::sync::MutexGuard<'a, T>>,
+    mutex: &'a Mutex<T>,
+    seq: u64,
+}
+
+impl<T> Mutex<T> {
+    pub fn new(t: T) -> Self {
+        Self {
+            inner: std::sync::Mutex::new(t),
+            owner: AtomicU64::new(0),
+            seq: AtomicU64::new(0),
+        }
+    }
+
+    pub fn lock(&self) -> Result<MutexGuard<'_, T>, String> {
+        let me = label();
+        let obs = observer();
+        if obs.is_some() && self.owner.load(Ordering::SeqCst) == me + 1 {
+            if let Some(obs) = &obs {
+                obs.reentrant(me);
+            }
+            return Err("re-entrant acquisition of the instance lock".to_string());
+        }
+        if let Some(obs) = &obs {
+            obs.before_lock(me);
+        }
+        let guard = self.inner.lock().map_err(|e| e.to_string())?;
+        self.owner.store(me + 1, Ordering::SeqCst);
+        let seq = self.seq.fetch_add(1, Ordering::SeqCst) + 1;
+        if let Some(obs) = &obs {
+            obs.acquired(me, seq);
+        }
+        Ok(MutexGuard {
+            guard: Some(guard),
+            mutex: self,
+            seq,
+        })
+    }
+}
+
+impl<T> Deref for MutexGuard<'_, T> {
+    type Target = T;
+
+    fn deref(&self) -> &T {
+        self.guard.as_ref().expect("guard present until drop")
+    }
+}
+
+impl<T> DerefMut for MutexGuard<'_, T> {
+    fn deref_mut(&mut self) -> &mut T {
+        self.guard.as_mut().expect("guard present until drop")
+    }
+}
+
+impl<T> Drop for MutexGuard<'_, T> {
+    fn drop(&mut self) {
+        if let Some(obs) = observer() {
+            obs.releasing(label(), self.seq);
+        }
+        self.mutex.owner.store(0, Ordering::SeqCst);
+        drop(self.guard.take());
+    }
+}
